@@ -143,6 +143,29 @@ def check(an, rep, tier):
                         'ok' if ok else ('violation' if rv.k == 'arr' and
                                          rv.dims is not None else 'unknown'),
                         '' if ok else 'returned %r' % (rv,))
+    # a batch of ONE sample is a batch: with reps=1 the option comes back as
+    # [1, d], like for every other batch size (the callers index it with the
+    # 2-D masks of the batch)
+    from .. import interp as _interp
+    for v_ in (dict(opt='fvec', reps=('lit', 1)),
+               dict(opt='num', d=('lit', 3), reps=('lit', 1)),
+               dict(opt='fvec', reps=('lit', 2))):
+        I_ = _interp.Interp(prog, {})
+        I_.run_function(prog.func('grid.grid_prep_opt'),
+                        specs.build_args(v_, 3))
+        nrep = v_['reps'][1]
+        for j, rv in enumerate(I_.entry_returns):
+            ok = rv.k == 'arr' and rv.dims is not None and \
+                len(rv.dims) == 2 and rv.dims[0] is not None and \
+                rv.dims[0].as_int() == nrep and rv.dims[1] is not None and \
+                rv.dims[1].as_int() == 3
+            rep.add('S-ret', 'grid.grid_prep_opt', 'option repeated for a '
+                    'batch of %d: shape [%d, d] (%s, return path %d)'
+                    % (nrep, nrep, 'scalar option' if v_['opt'] == 'num'
+                       else 'vector option', j),
+                    'ok' if ok else ('violation' if rv.k == 'arr' and
+                                     rv.dims is not None else 'unknown'),
+                    '' if ok else 'returned %r' % (rv,))
     from ..poly import Poly, same
     # the empirical CDF has one step per SAMPLE (repeated values keep their
     # multiplicity): the tables captured by the returned closure have m + 1
